@@ -38,6 +38,7 @@ type InstSpec struct {
 	ConnMon     bool          `json:"connmon,omitempty"`
 	Promote     string        `json:"promote,omitempty"` // "" return at once | "block" until the context is done | "none" no callbacks registered
 	DemoteSleep time.Duration `json:"demotesleep,omitempty"`
+	DemoteStops bool          `json:"demotestops,omitempty"` // the demotion callback calls Stop() itself (an application that shuts the component down when it loses leadership)
 }
 
 type Step struct {
@@ -140,6 +141,7 @@ type instRT struct {
 	observes int32
 	// stop calls of the scenario in progress on this instance
 	stopsRunning int32
+	apiSeq       *int32
 }
 
 // appCtx is the context an application passes to Start: it ends when the application says so, either as a cancellation or
@@ -543,6 +545,11 @@ func runScenario(t *testing.T, sc *Scenario) (res *ScenarioResult) {
 		}
 		tr.headerf("hyp %d %d %d %d %d %d %d", b2i(sc.Responsive), b2i(sc.NoOutside), b2i(sc.NoPreempt), b2i(sc.FaultFree), b2i(sc.ConnOnly), int64(sc.MaxLat), int64(sc.FaultsEnd))
 		var apiSeq int32
+		for _, rt := range rts {
+			if rt != nil {
+				rt.apiSeq = &apiSeq
+			}
+		}
 		steps := append([]Step(nil), sc.Steps...)
 		sort.SliceStable(steps, func(i, j int) bool { return steps[i].At < steps[j].At })
 		sampleAll := func() {
@@ -666,6 +673,11 @@ func runScenario(t *testing.T, sc *Scenario) (res *ScenarioResult) {
 		}
 		res.Gor = libraryGoroutines()
 		tr.logf("gor %d", res.Gor)
+		if res.Gor == 0 {
+			// every instance has been stopped and every goroutine of the library has returned: a watcher that the library
+			// was given and did not stop is a subscription left open on the server
+			tr.logf("wleft %d", store.openWatchers())
+		}
 		res.Trace = tr.Lines
 	})
 	close(doneWall)
@@ -784,6 +796,22 @@ func registerCallbacks(rt *instRT) {
 		if rt.spec.DemoteSleep > 0 {
 			time.Sleep(rt.spec.DemoteSleep)
 		}
+		if rt.spec.DemoteStops && rt.apiSeq != nil && !tr.over.Load() {
+			// (from the goroutine the library runs the callback on)
+			n := int(atomic.AddInt32(rt.apiSeq, 1))
+			tr.logf("api %d %d stop", n, id)
+			atomic.AddInt32(&rt.stopsRunning, 1)
+			err := rt.el.Stop()
+			atomic.AddInt32(&rt.stopsRunning, -1)
+			r := "ok"
+			if err != nil {
+				r = "err"
+				if err == leader.ErrAlreadyStopped {
+					r = "already-stopped"
+				}
+			}
+			tr.logf("apiret %d %d %s", n, id, r)
+		}
 	})
 }
 
@@ -848,6 +876,12 @@ func execStep(tr *Trace, store *RefStore, rts map[int]*instRT, st Step, apiSeq *
 			}
 			return errs(err)
 		})
+	case "rereg":
+		// the application registers its callbacks again (the same functions)
+		if rt == nil || rt.spec.Promote == "none" {
+			return
+		}
+		registerCallbacks(rt)
 	case "cancelctx":
 		// the application cancels the context it passed to Start
 		if rt == nil {
